@@ -137,3 +137,147 @@ func VerifC19Expand() {
 	}
 	zzverif.Assert(s.expanding == 0, "expanding-flag-cleared")
 }
+
+// VerifC19ExpandRace: expansion of the input channel while a consumer and a second producer are
+// active, under every interleaving at lock-acquisition granularity (job param preempt_locks=1): the
+// expanding producer, a consumer that takes one row, and a producer that sends one more row through
+// the real safeSendToDataChan. Conservation: every row that was accepted (buffered before, or whose
+// send returned true) is afterwards either consumed or in the CURRENT channel - nothing is stranded
+// on the replaced channel - and FIFO order among the buffered rows is kept.
+func VerifC19ExpandRace() {
+	c := zzverif.Param("cap", 2)
+	s := verifStreamForInput(c)
+	for i := 0; i < c; i++ {
+		s.dataChan <- map[string]any{"seq": i}
+	}
+	buf := &s.config.PerformanceConfig.BufferConfig
+	exp := &s.config.PerformanceConfig.OverflowConfig.ExpansionConfig
+	buf.MaxBufferSize = 0
+	exp.MinIncrement = 1
+	exp.GrowthFactor = 2
+	exp.TriggerThreshold = 0.5
+	var consumed []map[string]any
+	sent := false
+	doneC, doneP := false, false
+	go func() { // consumer: reads the current channel reference under the read lock, takes one row
+		s.dataChanMux.RLock()
+		ch := s.dataChan
+		s.dataChanMux.RUnlock()
+		select {
+		case r := <-ch:
+			consumed = append(consumed, r)
+		default:
+		}
+		doneC = true
+	}()
+	go func() { // second producer
+		sent = s.safeSendToDataChan(map[string]any{"seq": 100})
+		doneP = true
+	}()
+	s.expandDataChannel()
+	zzverif.Quiesce()
+	zzverif.Assert(doneC && doneP, "all-parties-finished")
+	accepted := c
+	if sent {
+		accepted++
+	}
+	got := len(consumed)
+	n := len(s.dataChan)
+	var rest []map[string]any
+	for i := 0; i < n; i++ {
+		rest = append(rest, <-s.dataChan)
+	}
+	zzverif.Assert(got+n == accepted, "accepted-rows-are-consumed-or-in-the-current-channel")
+	// FIFO among the originally buffered rows
+	last := -1
+	for _, r := range append(consumed, rest...) {
+		if q, ok := r["seq"].(int); ok && q < 100 {
+			zzverif.Assert(q > last, "buffered-rows-keep-their-order")
+			last = q
+		}
+	}
+}
+
+// verifHookLogger runs a callback at every Debug line: expandDataChannel logs "Dynamic expansion ..."
+// between its length snapshot (taken under the read lock) and the write lock under which it migrates,
+// which makes that window a deterministic scheduling point - in the interpreter and in the native replay.
+type verifHookLogger struct{ onDebug func(format string) }
+
+func (l *verifHookLogger) Debug(format string, args ...any) {
+	if l.onDebug != nil {
+		l.onDebug(format)
+	}
+}
+func (l *verifHookLogger) Info(format string, args ...any)  {}
+func (l *verifHookLogger) Warn(format string, args ...any)  {}
+func (l *verifHookLogger) Error(format string, args ...any) {}
+func (l *verifHookLogger) SetLevel(level logger.Level)      {}
+
+// VerifC19ExpandWindow: the schedules in which other parties act between the expanding producer's
+// snapshot and its write lock: a consumer takes k0 rows before the expansion starts, then - inside the
+// window - the consumer takes k1 more rows and another producer sends m rows through the real
+// safeSendToDataChan (any k0, k1, m that fit). Afterwards every accepted row is consumed or in the
+// current channel, in FIFO order; nothing stays on the replaced channel.
+func VerifC19ExpandWindow() {
+	c := zzverif.Param("cap", 3)
+	s := verifStreamForInput(c)
+	for i := 0; i < c; i++ {
+		s.dataChan <- map[string]any{"seq": i}
+	}
+	buf := &s.config.PerformanceConfig.BufferConfig
+	exp := &s.config.PerformanceConfig.OverflowConfig.ExpansionConfig
+	buf.MaxBufferSize = 0
+	exp.MinIncrement = 1
+	exp.GrowthFactor = 2
+	exp.TriggerThreshold = 0.3
+	var consumed []map[string]any
+	take := func(k int) {
+		for i := 0; i < k; i++ {
+			s.dataChanMux.RLock()
+			ch := s.dataChan
+			s.dataChanMux.RUnlock()
+			select {
+			case r := <-ch:
+				consumed = append(consumed, r)
+			default:
+			}
+		}
+	}
+	k0 := zzverif.Choose("k0", c)
+	k1 := zzverif.Choose("k1", 2)
+	m := zzverif.Choose("m", 3)
+	accepted := c
+	fired := false
+	s.log = &verifHookLogger{onDebug: func(format string) {
+		if fired || len(format) < 7 || format[:7] != "Dynamic" {
+			return
+		}
+		fired = true
+		take(k1)
+		for i := 0; i < m; i++ {
+			if s.safeSendToDataChan(map[string]any{"seq": 100 + i}) {
+				accepted++
+			}
+		}
+	}}
+	take(k0)
+	s.expandDataChannel()
+	n := len(s.dataChan)
+	var rest []map[string]any
+	for i := 0; i < n; i++ {
+		rest = append(rest, <-s.dataChan)
+	}
+	zzverif.Observe("in-current-channel", int64(n))
+	zzverif.Assert(len(consumed)+n == accepted, "accepted-rows-are-consumed-or-in-the-current-channel")
+	lastOld, lastNew := -1, 99
+	for _, r := range append(consumed, rest...) {
+		q, _ := r["seq"].(int)
+		if q < 100 {
+			zzverif.Assert(q > lastOld, "buffered-rows-keep-their-order")
+			lastOld = q
+		} else {
+			zzverif.Assert(q > lastNew, "rows-of-one-producer-keep-their-order")
+			lastNew = q
+		}
+	}
+}
